@@ -154,6 +154,7 @@ func runC13(c *Ctx) {
 	c.c13Streams()
 	c.c13Formats()
 	c.c13MemberLists()
+	c.c13WholePayload()
 }
 
 // c13Formats: "delivered intact". A message that travels through the format-string position of a printf-like
@@ -693,4 +694,40 @@ func (c *Ctx) c13MemberLists() {
 		}
 	}
 	c.Extra["slice_field_stores"] = n
+}
+
+// c13WholePayload (L9): "each message is delivered to the sink exactly once and intact". A message reaches a writer of
+// this package as one Write call; the writers hand it on. Whoever hands on a part of the payload (p[:k], p[k:]) turns one
+// message into several entries of the sink: a ring buffer drops and reports them one by one, another goroutine's message
+// lands between the pieces. The payload is passed on whole.
+func (c *Ctx) c13WholePayload() {
+	c.rule("L9", "a Write method of the logging packages never hands on a part of its payload: no bounded sub-slice of the parameter is taken", 7)
+	for _, rel := range c13Pkgs {
+		for _, f := range c.srcFuncs(rel) {
+			if f.Name() != "Write" || f.Signature.Recv() == nil || len(f.Params) != 2 {
+				continue
+			}
+			if sl, ok := f.Params[1].Type().Underlying().(*types.Slice); !ok || !types.Identical(sl.Elem(), types.Typ[types.Byte]) {
+				continue
+			}
+			c.FuncsSeen[fname(f)] = true
+			bad := ""
+			fns := append([]*ssa.Function{f}, f.AnonFuncs...)
+			for _, g := range fns {
+				allInstrs(g, func(in ssa.Instruction) {
+					sl, ok := in.(*ssa.Slice)
+					if !ok || (sl.Low == nil && sl.High == nil) {
+						return
+					}
+					for _, l := range sources(sl.X, deriveOpts{through: func(string) bool { return false }}) {
+						if resolveValue(l) == ssa.Value(f.Params[1]) {
+							bad = c.ipos(sl)
+						}
+					}
+				})
+			}
+			c.check(bad == "", "L9", fname(f), c.pos(f.Pos()), "the payload is handed on whole",
+				"a part of the payload is taken at "+bad+": one message becomes several writes to the sink — each piece is a message of its own for the ring buffer (dropped and counted separately) and other goroutines' messages land between the pieces")
+		}
+	}
 }
